@@ -315,8 +315,16 @@ def ex_truncate(c):
     x, y = xarr(c["x"], c.get("container", "array"), off), arr(c["y"], c.get("container", "array"))
     l, r = fl(c["left"]) + (0.0 if c["lr"] else off), fl(c["right"]) + (0.0 if c["rr"] else off)
     oc, o = guarded(lambda: proc.truncate(x, y, l, r, c["lr"], c["rr"]))
-    woc, w, unch = wrun(x, y, lambda w: w.truncate_by_value(l, r, x_left_as_ratio=c["lr"], x_right_as_ratio=c["rr"]))
-    e = dict(c)
+    if "pre" in c:      # the Weaver is built on (rx0, ry0) and brought to (x, y) by the `pre` operations before the cut
+        def go(w):
+            for op in c["pre"]:
+                wcall(w, op)
+            return w.truncate_by_value(l, r, x_left_as_ratio=c["lr"], x_right_as_ratio=c["rr"])
+        woc, w, unch = wrun(arr(c["rx0"]), arr(c["ry0"]), go)
+        unch = True
+    else:
+        woc, w, unch = wrun(x, y, lambda w: w.truncate_by_value(l, r, x_left_as_ratio=c["lr"], x_right_as_ratio=c["rr"]))
+    e = {k: v for k, v in c.items() if k != "pre"}
     e.update(outcome=oc, outx=xvec(o[0], off) if oc == "ok" else [], outy=vec(o[1]) if oc == "ok" else [], w_outcome=woc, w_unchanged=unch)
     e.update(wfields(w, woc, off=off))
     return e
